@@ -60,7 +60,13 @@ class ProgramProperty:
         return common.compare_program(case["steps"], impl, resp["model"])
 
     def extra_fails(self, case, impl, resp) -> list[str]:
-        return self.laws(case, impl)
+        # steps marked `_tail` (gen.live_tail: the converters live on and are mutated after the operations under
+        # test) are judged by the correspondence with the pure model and by the Lean spec checker; the property's own
+        # laws speak about the program up to there
+        cut = next((i for i, st in enumerate(case["steps"]) if st.get("_tail")), None)
+        if cut is None:
+            return self.laws(case, impl)
+        return self.laws(dict(case, steps=case["steps"][:cut]), impl[:cut])
 
     def laws(self, case, impl) -> list[str]:
         """The property's own laws evaluated directly on the implementation's outputs."""
